@@ -25,6 +25,9 @@ var registry = map[string]entry{
 	"C05": {"exploration", props.C05},
 	"C06": {"exploration", props.C06},
 	"C12": {"exploration", props.C12},
+	"C13": {"exploration", props.C13},
+	"C14": {"exploration", props.C14},
+	"C15": {"exploration", props.C15},
 	"C27": {"exploration", props.C27},
 	"C28": {"exploration", props.C28},
 	"C20": {"exploration", comp.C20},
